@@ -130,6 +130,10 @@ impl SimpleSerializer for FloatBuilder<f32> {
     fn serialize_f64(&mut self, v: f64) -> Result<()> {
         try_(|| self.array.push_scalar_value(v as f32)).ctx(self)
     }
+
+    fn serialize_char(&mut self, v: char) -> Result<()> {
+        try_(|| self.array.push_scalar_value(u32::from(v) as f32)).ctx(self)
+    }
 }
 
 impl SimpleSerializer for FloatBuilder<f64> {
@@ -179,6 +183,10 @@ impl SimpleSerializer for FloatBuilder<f64> {
 
     fn serialize_f64(&mut self, v: f64) -> Result<()> {
         try_(|| self.array.push_scalar_value(v)).ctx(self)
+    }
+
+    fn serialize_char(&mut self, v: char) -> Result<()> {
+        try_(|| self.array.push_scalar_value(u32::from(v) as f64)).ctx(self)
     }
 }
 
